@@ -23,10 +23,11 @@ def _one(job):
 
 
 def run_render(out, pid, focus, tier, nquick, nthorough, max_nodes=6, opts=None, wd=None,
-               keep=lambda d: True, module="TraceRender", cfg="TraceRender.cfg"):
+               keep=lambda d: True, module="TraceRender", cfg="TraceRender.cfg", extra_docs=()):
     opts = opts or {}
     n = nquick if tier == "quick" else nthorough
     docs, gens = D.generate_docs(focus, n, common.seed(), wd, max_nodes=max_nodes)
+    docs = list(extra_docs) + docs
     for g in gens:
         out.add_tlc(g)
     seen = set()
